@@ -103,19 +103,26 @@ def Atmo.temperatureAt (a : Atmo α) (altFt : α) : α :=
   let t := (altFt - a.a0) * cLapseRateKperFoot + a.t0
   if t < lowestTempC then lowestTempC else t
 
+/-- base of the barometric power law at an altitude -/
+def Atmo.pressureBase (a : Atmo α) (altFt : α) : α :=
+  1.0 + cLapseRateKperFoot * (altFt - a.a0) / (a.t0 + cDegreesCtoK)
+
 /-- `pressure_at_altitude` (hPa) -/
 def Atmo.pressureAt (a : Atmo α) (altFt : α) : α :=
-  a.p0 * Fn.pow (1.0 + cLapseRateKperFoot * (altFt - a.a0) / (a.t0 + cDegreesCtoK)) cPressureExponent
+  a.p0 * Fn.pow (a.pressureBase altFt) cPressureExponent
 
-/-- `get_density_factor_and_mach_for_altitude(altitude ft)` → (density ratio, Mach 1 in fps) -/
-def Atmo.densityMachAt (a : Atmo α) (altFt : α) : α × α :=
-  if Fn.abs (a.a0 - altFt) < 30.0 then (a.densityRatio, a.mach)
+/-- `get_density_factor_and_mach_for_altitude(altitude ft)` → (density ratio, Mach 1 in fps);
+    `none` = `ValueError: math domain error` (`math.pow` of a negative base, i.e. an altitude so far above
+    the station that the lapse-rate pressure law has passed zero). -/
+def Atmo.densityMachAt (a : Atmo α) (altFt : α) : Option (α × α) :=
+  if Fn.abs (a.a0 - altFt) < 30.0 then some (a.densityRatio, a.mach)
   else
     let t := a.temperatureAt altFt + cDegreesCtoK
     let mach := fpsOf (machK t)
+    if a.pressureBase altFt < 0.0 then none else
     let p := a.pressureAt altFt
     let densityDelta := ((a.t0 + cDegreesCtoK) * p) / (a.p0 * t)
-    (a.densityRatio * densityDelta, mach)
+    some (a.densityRatio * densityDelta, mach)
 
 end
 end BC.Model
